@@ -182,6 +182,19 @@ func genCH(t *rapid.T) *CH {
 		}
 		exts = append(exts, Ext{Kind: "other", Type: typ, Len: l})
 	}
+	// steer the total length into the classes of interest with one more extension (a key share /
+	// padding sized body), so that one, two and several datagrams are all well populated
+	c.Exts = exts
+	if target := rapid.SampledFrom([]int{0, 0, 0, 300, 1200, 1200, 1700, 2300, 2300, 5000}).Draw(t, "target"); target > 0 {
+		target += rapid.IntRange(-60, 60).Draw(t, "target-jitter")
+		b, _, _, _ := c.encode()
+		for _, typ := range []uint16{21, 51, 0xfe0e, 0x4444} {
+			if !used[typ] && len(b)+4 < target {
+				exts = append(exts, Ext{Kind: "other", Type: typ, Len: target - len(b) - 4})
+				break
+			}
+		}
+	}
 	if len(exts) > 1 {
 		exts = rapid.Permutation(exts).Draw(t, "extorder")
 	}
